@@ -1,6 +1,6 @@
 (* C09 — Deblocking equals the Annex J edge filter at every block edge, wherever it lies.
    Only statements; proofs are in proofs/. *)
-From H263V Require Import base.Prelude model.Deblock proofs.DeblockShape proofs.DeblockKernel.
+From H263V Require Import base.Prelude model.Deblock proofs.DeblockShape proofs.DeblockKernel proofs.DeblockPass.
 
 (* the code's scalar kernel is Annex J on all 2^32 patterns and every strength *)
 Theorem C09_kernel_scalar :
@@ -32,6 +32,23 @@ Theorem C09_length :
   exists out, deblock data w s = Ok out /\ length out = length data.
 Proof. exact deblock_total_len. Qed.
 
+(* THE PROPERTY, for every image: for every width >= 1, height >= 0, byte image of w*h samples and strength >= 0
+   the code's two passes (row groups of four, vector chunks of eight columns plus scalar remainder; row groups of
+   eight plus scalar remainder rows, column chunks of eight from column 2) return exactly `annexJ_flat`: the Annex J
+   filter across every horizontal 8-aligned interior edge whose four samples lie inside the image, then across
+   every vertical one; every other sample is copied (`edge_of` = None).  `annexJ_image` is stated pointwise, so a
+   pattern's result does not depend on where it lies. *)
+Theorem C09_image :
+  forall data w h s, 1 <= w -> 0 <= h -> zlength data = w * h -> Forall byte data -> 0 <= s ->
+  deblock data w s = Ok (annexJ_flat data w h s).
+Proof. exact deblock_is_annexJ. Qed.
+
+(* non-vacuity: a 10x10 image has exactly one horizontal and one vertical edge; evaluated *)
+Example C09_image_example :
+  let data := map (fun i => (Z.of_nat i * 37) mod 256) (seq 0 100) in
+  deblock data 10 5 = Ok (annexJ_flat data 10 10 5) /\ annexJ_flat data 10 10 5 <> data.
+Proof. cbv zeta. split; [vm_compute; reflexivity|vm_compute; discriminate]. Qed.
+
 Check C09_kernel_scalar :
   forall a b c d s, byte a -> byte b -> byte c -> byte d -> 0 <= s ->
   process a b c d s = annexJ a b c d s.
@@ -43,3 +60,4 @@ Print Assumptions C09_kernel_lane.
 Print Assumptions C09_kernel_bytes.
 Print Assumptions C09_lane_floor_refuted.
 Print Assumptions C09_length.
+Print Assumptions C09_image.
